@@ -1,7 +1,6 @@
 package props
 
 import (
-	"context"
 	"fmt"
 	"strings"
 
@@ -13,6 +12,7 @@ import (
 	"verifharness/internal/enum"
 	"verifharness/internal/lx"
 	"verifharness/internal/model"
+	"verifharness/internal/vclock"
 	"verifharness/internal/vf"
 )
 
@@ -59,7 +59,7 @@ func (rg *c18rig) runStepped(ast types.MalType, script []int, r *vf.Rec) (implOu
 		return c18Cmds[cmd]
 	}
 	var out implOutcome
-	res, err, p := lx.Eval(context.Background(), ast, scope)
+	res, err, p := lx.Eval(vclock.NewPollCtx(100000), ast, scope) // the plain run needed < 3000 polls
 	lisp.Stepper = nil
 	lisp.VerifResetStepFlags()
 	for _, t := range rg.tracer.Log {
@@ -131,12 +131,7 @@ func init() {
 		}
 		// program sources: core forms with scoped effects, try nests, macro calls
 		var gCore, gTry, gMac *enum.Grammar
-		coreW := func() int {
-			if tier == "thorough" {
-				return 4
-			}
-			return 3
-		}
+		coreW := func() int { return 4 }
 		tryW := func() int {
 			if tier == "thorough" {
 				return 4
@@ -164,7 +159,7 @@ func init() {
 			{"macro", func() int64 { init3(); return gMac.Count(0, 3) * int64(len(macArgs)) }, func(i int64) V {
 				na := int64(len(macArgs))
 				body := form("quasiquote", gMac.Unrank(0, i/na))
-				return form("do", form("defmacro", sym("mac"), form("fn", model.Vec(sym("p"), sym("&"), sym("r")), body)),
+				return form("do", form("defmacro", sym("mac"), form("fn", model.Vec(sym("p"), sym("&"), sym("r")), form("t!", model.Int(7)), body)),
 					model.List(append([]V{sym("mac")}, macArgs[i%na]...)...))
 			}},
 		}
@@ -179,7 +174,7 @@ func init() {
 		}
 		fam := &vf.Family{
 			Name:   "programs-x-scripts",
-			Bounds: "programs: all core-form programs (C01 grammar + (t! x), (t! y)) of weight <=3 (quick) / <=4 (thorough), all try nests (C03 grammar) of weight <=3/<=4, all template macros (C12 code grammar, weight <=3) x operand tuples of length 1-2; each run under every stepper command script of length 1..3 (quick, 84) / 1..4 (thorough, 340) over {noop, next, in, out}, applied cyclically",
+			Bounds: "programs: all core-form programs (C01 grammar + (t! x), (t! y)) of weight <=4, all try nests (C03 grammar) of weight <=3/<=4, all template macros (C12 code grammar, weight <=3) x operand tuples of length 1-2; each run under every stepper command script of length 1..3 (quick, 84) / 1..4 (thorough, 340) over {noop, next, in, out}, applied cyclically",
 			Setup:  setup,
 			N: func(t string) int64 {
 				tier = t
@@ -194,8 +189,12 @@ func init() {
 				prog, kind := progOf(i)
 				ast := model.ToImpl(prog)
 				lisp.Stepper = nil
-				plain, _ := rg.runImpl(ast, 0)
+				plain, _ := rg.runImpl(ast, 3000)
 				r.Exec(1)
+				if plain.Fuel {
+					r.Note("skipped: program does not terminate (fuel)")
+					return
+				}
 				if plain.Panic != nil {
 					r.Note("skipped: program panics without a stepper (C04)")
 					return
